@@ -157,6 +157,9 @@ def run(tier="quick", seed=0, arg=None):
     # zero-padded python_full_version forms), both variables, always in full
     vp = [f'{var} {op} "{v}"' for var in ("python_version", "python_full_version") for op in ("<", ">=") for v in ("3.0", "4.0", "3.8")]
     vp += [f'{var} {op} "3.*"' for var in ("python_version", "python_full_version") for op in ("==", "!=")]
+    # python_version in / not in lists against python_full_version bounds inside the listed series (the list view must hold for X.Y.Z, not only X.Y)
+    vp += ['python_version in "3.8, 3.9"', 'python_version not in "3.8, 3.9"', 'python_version in "3.8"', 'python_full_version >= "3.8.1"',
+           'python_full_version > "3.8.0"', 'python_full_version < "3.8.1"', 'python_full_version in "3.8.1, 3.9.0"']
     vp = [(t, parse_marker(t)) for t in vp]
     group_pairs += [(x, y) for x in vp for y in vp]
     W = [(t, m) for t, m in pool if t in set(WITNESS_TEXTS)]
